@@ -23,11 +23,28 @@ H = {
     "array_visitor_total_n1": dict(crate="zkchannels-crypto", what="[G;1] sequence visitor: value or error (no panic) for any announced length <= N+2 and any size hint; Ok iff exactly N elements", functions=["serde.<[G; N] as SerializeElement>::deserialize"], note="complete for code that stops at capacity: the first N+1 steps of any longer sequence are identical"),
     "array_visitor_total_n5": dict(crate="zkchannels-crypto", what="[G;5] sequence visitor: value or error (no panic) for any announced length <= N+2 and any size hint; Ok iff exactly N elements", functions=["serde.<[G; N] as SerializeElement>::deserialize"]),
     "boxed_array_visitor_total_n1": dict(crate="zkchannels-crypto", what="Box<[G;1]> codec: value or error for any announced length", functions=["serde.<Box<[G; N]> as SerializeElement>::deserialize"]),
+    "commit_scalars_respected_n1": dict(crate="zkchannels-crypto", what="generate_proof_commitments uses caller-given commitment scalars unchanged and stores the message unchanged (N=1; all given scalars, all RNG outputs; commit and from_bytes_wide stubbed)", functions=["cproof.CommitmentProofBuilder::generate_proof_commitments (statement 3: scalar selection closure)"], bound="tuple length N=1"),
+    "commit_scalars_respected_n2": dict(crate="zkchannels-crypto", what="same, N=2", functions=["cproof.CommitmentProofBuilder::generate_proof_commitments (statement 3: scalar selection closure)"], bound="tuple length N=2"),
+    "commit_scalars_respected_n3": dict(crate="zkchannels-crypto", what="same, N=3", functions=["cproof.CommitmentProofBuilder::generate_proof_commitments (statement 3: scalar selection closure)"], bound="tuple length N=3"),
+    "range_digits_exact": dict(crate="zkchannels-crypto", what="prefix of generate_constraint_commitments (sign test + digit decomposition, sliced verbatim): Err iff value < 0; otherwise 9 digits < 128 with sum d_j*128^j == value; all i64, bit-precise, shape-independent", functions=["range.RangeConstraintBuilder::generate_constraint_commitments (statements before the digit proof builders)"]),
     "vec_visitor_bounded_allocation": dict(crate="zkchannels-crypto", what="Vec<G> visitor: capacity requested is bounded by a constant, not by the attacker-chosen size hint", functions=["serde.<Vec<G> as SerializeElement>::deserialize"]),
 }
 
 
+def _slice_digits():
+    import vxlib
+    o = vxlib.run_extract([{"id": "d", "file": "zkchannels-crypto/src/proofs/range.rs", "path": "impl RangeConstraintBuilder::generate_constraint_commitments", "mode": "slice", "stmts_until": "let digit_proof_builders", "raw": True}])["items"][0]
+    if not o["ok"]:
+        raise Machinery("range digits slice: %s" % o["error"])
+    return o["text"]
+
+
 def _inject(scratch):
+    with open(os.path.join(scratch, "zkchannels-crypto/src/proofs/commitment.rs"), "a") as f:
+        f.write('\n#[cfg(kani)]\nmod verif_kani_cproof { include!("%s"); }\n' % os.path.join(VERIF, "kani/harness/zc_commitment.rs"))
+    with open(os.path.join(scratch, "zkchannels-crypto/src/proofs/range.rs"), "a") as f:
+        f.write("\n#[cfg(kani)]\nfn vx_kani_digits(value: i64) -> Result<[u64; RP_PARAMETER_L], ValueOutsideRange> {\n        %s\n        Ok(digits)\n}\n" % _slice_digits())
+        f.write('#[cfg(kani)]\nmod verif_kani_range { include!("%s"); }\n' % os.path.join(VERIF, "kani/harness/zc_range.rs"))
     with open(os.path.join(scratch, "zkabacus-crypto/src/lib.rs"), "a") as f:
         f.write('\n#[cfg(kani)]\nmod verif_kani { include!("%s"); }\n' % os.path.join(VERIF, "kani/harness/za.rs"))
     with open(os.path.join(scratch, "zkabacus-crypto/src/states.rs"), "a") as f:
